@@ -349,6 +349,7 @@ def _walk_chart(w, chart, path):
                     n = 0
                 for k in range(min(n, 2)):
                     w.add("point", s.points[k], f"{sp}.points[{k}]")
+                    w.add("datalabel", s.points[k].data_label, f"{sp}.points[{k}].data_label")
 
 
 def _walk_shapes(w, shapes, path, depth=0):
